@@ -46,6 +46,34 @@ def file_level(rep, fff, tabs, index, rng):
                                   {"table": tab, "kind": kind, "values": vals, "string_level": exp, "file_level": got})
                     break
             r.close()
+            # the dictionary-level calls: write_value_line with some keys missing (an absent value), read_value_line back
+            names_of = dict((k_, v_[0]) for k_, v_ in spec.items())
+            w = fff.fixed_format_file(path, "w", spec, readfn)
+            drecs = []
+            for kind, vals in recs[:400]:
+                names = names_of[kind]
+                if len(set(names)) != len(names) or len(names) != len(vals):
+                    continue
+                d = dict((n_, v_) for n_, v_ in zip(names, vals) if v_ is not None and rng.random() < 0.7)
+                try:
+                    w.write_value_line(d, kind)
+                except Exception as ex:
+                    rep.violation("dict-level:%s:raises" % tab, "P2_fitting_value_written", {"table": tab, "kind": kind, "dictionary": d, "error": repr(ex)})
+                    break
+                drecs.append((kind, names, d, w.parse_string(w.write_values_to_string([d.get(n_) for n_ in names], kind), kind)))
+            else:
+                w.close()
+                r = fff.fixed_format_file(path, "r", spec, readfn)
+                for kind, names, d, exp in drecs:
+                    d2 = {}
+                    r.read_value_line(d2, kind)
+                    rep.case(("dict", tab, kind, len(rep.distinct)))
+                    bad = [n_ for n_, e_ in zip(names, exp) if not fixedrec.same(d2.get(n_), e_)]
+                    if bad:
+                        rep.violation("dict-level:%s" % tab, "P3_no_displacement",
+                                      {"table": tab, "kind": kind, "dictionary_written": d, "dictionary_read": d2, "fields": bad})
+                        break
+                r.close()
             # a non-ASCII character in a name
             for kind, vals in recs[:40]:
                 fs = fields_of[(tab, kind)]
@@ -84,6 +112,12 @@ def check_point(rep, parser, tab, kind, fields, focus, cls, out, rng, nvariants,
     width = sum(x["w"] for x in fields)
     for variant in range(nvariants):
         v = fixedrec.concretise(f, cls, rng, variant)
+        if cls.get("up") and variant % 2 == 1 and v is not None:
+            # the model's outcome for an all-nines class assumes nines beyond every printed digit; with exactly as many nines
+            # as are printed the same width rule is applied to the value itself
+            t = ("%.*e" if f["t"] == "e" else "%.*f") % (f["p"], v)
+            short = ("%.0e" if f["t"] == "e" else "%.0f") % v
+            out = dict(out, o="FITS" if len(t) <= f["w"] else ("TRIM" if len(short) <= f["w"] else "IMPOSSIBLE"))
         vals = [fixedrec.typical(x, rng, full=(variant % 2 == 0)) for x in fields]
         for j in range(len(vals)):            # an absent value in any (other) position
             if j != focus and rng.random() < 0.15:
@@ -181,6 +215,9 @@ def run(tier):
                         v = float("%s%d.%se%d" % ("-" if neg else "", rng.randint(1, 8),
                                                   "".join(rng.choice("0123456789") for _ in range(12)), ex))
                         sweep_point(rep, parser, tab, kind, fields, focus, cls, out, v, rng, readfn)
+                        if ex % 3 == 0 or abs(ex) in (99, 100):
+                            v9 = float("%s9.%se%d" % ("-" if neg else "", "9" * max(f["p"], 1), ex))
+                            sweep_point(rep, parser, tab, kind, fields, focus, cls, dict(out, o="TRIM" if out["o"] == "FITS" and abs(ex) == 99 else out["o"]), v9, rng, readfn)
         file_level(rep, fff, tabs, index, rng)
     finally:
         FILEQ.clear()
